@@ -16,6 +16,7 @@ import (
 	"strconv"
 	"strings"
 	"sync"
+	"syscall"
 	"time"
 )
 
@@ -388,6 +389,7 @@ type workerState struct {
 	resume  int64
 	skip    []string
 	crashes int
+	hangs   int
 }
 
 func supervise(ck *Check, opt map[string]string, seed int64) int {
@@ -476,6 +478,7 @@ func supervise(ck *Check, opt map[string]string, seed int64) int {
 				} else {
 					cmd = exec.Command(s.Binary, a...)
 				}
+				cmd.SysProcAttr = &syscall.SysProcAttr{Pdeathsig: syscall.SIGKILL}
 				cmd.Env = append(os.Environ(), "GOMAXPROCS=1", "VERIF_ROOT="+root)
 				if os.Getenv("VERIF_WORKER_PROCS") != "" {
 					cmd.Env = append(cmd.Env, "GOMAXPROCS="+os.Getenv("VERIF_WORKER_PROCS"))
@@ -555,6 +558,16 @@ func supervise(ck *Check, opt map[string]string, seed int64) int {
 				extraViol = append(extraViol, Violation{Sig: sig, Detail: fmt.Sprintf("worker %s while running %s: %s", kind, desc, lastLines(stderr.String(), 6)), Replay: map[string]string{"kind": kind, "case": desc}})
 				mu.Unlock()
 				st.crashes++
+				if kind == "hang" {
+					st.hangs++
+					// every hang costs a full case deadline: after a few of them the verdict
+					// is established and the rest of this shard is left unexplored (reported as a cap)
+					if st.hangs >= 3 {
+						r.Caps = append(r.Caps, fmt.Sprintf("worker %d stopped after %d hanging cases; the rest of its shard was not explored", i, st.hangs))
+						results[i] = r
+						return
+					}
+				}
 				if st.crashes > 200 {
 					mu.Lock()
 					herr = append(herr, fmt.Sprintf("worker %d: more than 200 crashes, giving up", i))
